@@ -9,6 +9,7 @@ import errno
 import boltons.fileutils as fu
 from vf import fakeos
 from vf.fakeos import FakeFS, Inode
+from vf import rt
 from vf.rt import cz, pin, pinval, assume, fail, done, notrace
 from vf.check import Ob
 
@@ -21,7 +22,8 @@ BOUNDS = {
     'quick': {'faults': 'none or one failing call at any tick 0..17 (two in a separate obligation)', 'writes': '0..2',
               'config': 'overwrite, overwrite_part, rm_part_on_exc, text_mode, file_perms in None/0o600/0o644/0o777, umask in 0/0o022/0o077',
               'initial state': 'destination absent / present (0o640, 0o600); part file absent / present; destination appearing at any tick',
-              'body': 'normal or raising before/after its writes'},
+              'body': 'normal or raising before/after its writes',
+              'permission words': 'modes_law: every mode 0..0o7777 of the replaced file and every explicit file_perms 0..0o7777, per umask (fault-free save)'},
     'thorough': {'faults': 'every pair of failing calls', 'writes': '0..3'},
 }
 ASSUMPTIONS = ['fault sites are the steps the statement lists (open, chmod, write, flush, fsync, close, link/rename); stat/lexists/unlink/fdopen are not',
@@ -61,7 +63,7 @@ def _run(fs, kw, nwrites, body_exc, payload):
 
 
 def _body(fault1, fault2, overwrite, overwrite_part, rm_part, text_mode, perm_i, umask_i, dest_state, part_exists,
-          racer_at, body_exc, nwrites):
+          racer_at, body_exc, nwrites, dest_mode=None, perms=None):
     faults = tuple(x for x in (fault1, fault2) if x >= 0)
     racer = None
     if racer_at >= 0:
@@ -74,15 +76,16 @@ def _body(fault1, fault2, overwrite, overwrite_part, rm_part, text_mode, perm_i,
         racer = (racer_at, racer_fn)
     fs = FakeFS(fault_at=faults, umask=UMASKS[umask_i], racer=racer)
     if dest_state:
-        fs.names[DEST] = Inode(0o640 if dest_state == 1 else 0o600, OLD)
+        fs.names[DEST] = Inode(dest_mode if dest_mode is not None else (0o640 if dest_state == 1 else 0o600), OLD)
     if part_exists:
         fs.names[PART] = Inode(0o644, b'someone else')
     foreign_part = fs.names.get(PART)
     payload = ['\xe9x', 'yz', 'w'] if text_mode else [b'\xc3x', b'yz', b'w']
     new = ''.join(payload[:nwrites]).encode('utf-8') if text_mode else b''.join(payload[:nwrites])
     kw = dict(overwrite=overwrite, overwrite_part=overwrite_part, rm_part_on_exc=rm_part, text_mode=text_mode)
-    if PERMS[perm_i] is not None:
-        kw['file_perms'] = PERMS[perm_i]
+    req_perms = perms if perms is not None else PERMS[perm_i]
+    if req_perms is not None:
+        kw['file_perms'] = req_perms
     dest_before = fs.names.get(DEST)
     before = (dest_before.kernel, dest_before.mode) if dest_before is not None else None
     exc = _run(fs, kw, nwrites, body_exc, payload)
@@ -105,15 +108,15 @@ def _body(fault1, fault2, overwrite, overwrite_part, rm_part, text_mode, perm_i,
             return fail('overwrite_false_replaced_existing', tag)
         if raced and not overwrite and before is None:
             return fail('overwrite_false_replaced_racer', tag)
-        if PERMS[perm_i] is not None:
-            exp_mode = PERMS[perm_i]
+        if req_perms is not None:
+            exp_mode = req_perms
         elif before is not None:
             exp_mode = before[1]
         elif raced and dest_before is None and fs.log.index('stat') >= 0 and False:
             exp_mode = None
         else:
             exp_mode = 0o666 & ~UMASKS[umask_i]
-        if raced and before is None and PERMS[perm_i] is None:
+        if raced and before is None and req_perms is None:
             exp_mode = None              # the racer's file may or may not have been seen by the stat(): either rule is acceptable
         if exp_mode is not None and dest.mode != exp_mode:
             return fail('completed_permissions', 'mode %o expected %o; %s' % (dest.mode, exp_mode, tag))
@@ -196,6 +199,30 @@ def perms_law(perm_i: int, umask_i: int, dest_state: int, text_mode: bool, overw
         return _body(fault1, -1, overwrite, False, True, text_mode, perm_i, umask_i, dest_state, 0, -1, 0, 1)
 
 
+def modes_law(umask_i: int, text_mode: bool, which: int) -> bool:
+    """
+    pre: 0 <= umask_i <= 2 and 0 <= which <= 1
+    post: _
+    """
+    # every permission word: as the mode of the file being replaced (which=0) and as the explicit file_perms (which=1);
+    # the 4096 values are looped concretely inside the path (the mode only flows through stat/chmod)
+    umask_i = cz(umask_i, 0, 2)
+    which = cz(which, 0, 1)
+    text_mode = True if text_mode else False
+    with notrace():
+        snap = (rt.STATE['paths'], rt.STATE['witness'], dict(rt.STATE['witness_kinds']), list(rt.STATE['samples']))
+        for m in range(0o10000):
+            if which == 0:
+                r = _body(-1, -1, True, False, True, text_mode, 0, umask_i, 1, 0, -1, 0, 1, dest_mode=m)
+            else:
+                r = _body(-1, -1, True, False, True, text_mode, 0, umask_i, 1, 0, -1, 0, 1, perms=m)
+            if r is not True:
+                return r
+        # the inner runs are one explored path, not 4096
+        rt.STATE['paths'], rt.STATE['witness'], rt.STATE['witness_kinds'], rt.STATE['samples'] = snap
+        return done(True, kind='completed', modes=0o10000)
+
+
 def part_law(overwrite_part: bool, rm_part: bool, part_exists: bool, dest_state: int, overwrite: bool, fault1: int, body_exc: int) -> bool:
     """
     pre: 0 <= dest_state <= 1 and -1 <= fault1 <= 14 and 0 <= body_exc <= 2
@@ -235,6 +262,7 @@ def obligations(tier):
         obs.append(Ob('fault_law', timeout=T, pins={'two': 0, 'text': text, 'wmax': 2 if q else 3},
                       need_kinds=('completed', 'failed_by_fault', 'body_raised', 'refused_dest_exists')))
     obs.append(Ob('perms_law', timeout=T, need_kinds=('completed',)))
+    obs.append(Ob('modes_law', timeout=T, need_kinds=('completed',)))
     obs.append(Ob('part_law', timeout=T, need_kinds=('completed', 'refused_part_exists')))
     obs.append(Ob('racer_law', timeout=T, pins={'faults': 0}, need_kinds=('completed',)))
     if q:
